@@ -5,6 +5,9 @@ alarm of the checker. Prints per change the properties/rules that fired."""
 import sys, os, subprocess, shutil, tempfile, re
 from concurrent.futures import ThreadPoolExecutor
 ENV = dict(os.environ, GOFLAGS="-mod=mod", GOPROXY="off", GOSUMDB="off", GOTOOLCHAIN="local"); ENV.pop("GOWORK", None)
+sys.path.insert(0, os.path.dirname(os.path.abspath(__file__)))
+from scratch import scratch_gocache
+ENV["GOCACHE"] = scratch_gocache(ENV)
 PROPS = ["C%02d" % i for i in range(1, 21)]
 def one(d):
     t = tempfile.mkdtemp(prefix="hv-refac-")
@@ -16,7 +19,7 @@ def one(d):
         if r.returncode != 0: return d, "DOES-NOT-COMPILE", []
         fired = []
         for p in PROPS:
-            r = subprocess.run(["/verif/bin/hclverif", "-property", p, "-repo", t, "-no-evidence"], capture_output=True, text=True)
+            r = subprocess.run(["/verif/bin/hclverif", "-property", p, "-repo", t, "-no-evidence"], capture_output=True, text=True, env=ENV)
             for m in re.finditer(r"\[(violated|undecided)\] ([^\s]+?)\|([^|]*)\|([^\n—]*)", r.stdout):
                 fired.append(f"{p}:{m.group(2)}|{m.group(3).split('.')[-1]}|{m.group(4).strip()[:60]}")
             if "ANALYSIS FAILURE" in r.stdout: fired.append(f"{p}:ANALYSIS-FAILURE")
